@@ -81,7 +81,8 @@ func NewTokenLimiter(rate, burst int, store *redis.Redis, key string) *TokenLimi
 		rescueLock:     sync.Mutex{},
 		redisAlive:     1,
 		monitorStarted: false,
-		rescueLimiter:  xrate.NewLimiter(xrate.Every(time.Second/time.Duration(rate)), burst),
+		// 与 Redis 中的桶同速率：直接用每秒 rate 个事件（按纳秒间隔取整会使速率偏快，rate 为 0 时还会除零）
+		rescueLimiter: xrate.NewLimiter(xrate.Limit(rate), burst),
 	}
 }
 
